@@ -575,6 +575,18 @@ def main():
             raise Unsupported("registration call names %s.%s which is not a module-level class" % (mod, cn))
         if k not in classes:
             classes.append(k)
+    # every Element subclass that declares a `_tag`, found by walking the package (NOT from the registry and not from the
+    # registration calls: a class whose registration was dropped is still a class the library defines): kept, flagged
+    def _subs(c):
+        for s_ in c.__subclasses__():
+            yield s_
+            yield from _subs(s_)
+    tagged = []
+    for k in sorted(set(_subs(Element)), key=lambda k: (k.__module__, k.__name__)):
+        if k.__module__.split(".")[0] == "odfdo" and isinstance(k.__dict__.get("_tag"), str) and k.__dict__["_tag"]:
+            tagged.append(k)
+            if k not in classes and not k.__dict__["_tag"].endswith("-odfdo-notodf"):      # (abstract bases carry a fake tag)
+                classes.append(k)
     cnames = [c.__name__ for c in classes]
     if len(set(cnames)) != len(cnames):
         raise Unsupported("two registered classes share a name: %s" % sorted(n for n in cnames if cnames.count(n) > 1))
@@ -662,6 +674,10 @@ def main():
            "Definition propdefs : list (string * (string * (string * string))) := [\n" + ";\n".join(prop_lines) + "\n].", "",
            "(* the _properties tuples as declared in the class body itself (declaration order; a later duplicate name overrides) *)",
            "Definition declared_propdefs : list (string * (string * (string * string))) := [\n" + ";\n".join(decl_lines) + "\n].", ""]
+    info["tagged_classes"] = [[k.__name__, k.__dict__["_tag"]] for k in tagged]
+    reg += ["(* every Element subclass of the package that declares a _tag, found by walking the class tree: (class, tag) *)",
+            "Definition tagged_classes : list (string * string) := [\n"
+            + ";\n".join("  (%s, %s)" % (q(k.__name__), q(k.__dict__["_tag"])) for k in tagged) + "\n].", ""]
     sites = wrap_sites()
     info["wrap_sites"] = sites
     reg += ["(* every place that makes a wrapper from an lxml node: (module, (enclosing function, (receiver / callee, factory))) *)",
